@@ -45,16 +45,19 @@ PlanC01Quick ==
    range1 |-> E("range",  {L2mixed, L1data},                                  1, {}, FALSE),
    range4 |-> E("range",  {L4one},                                            1, {}, FALSE)]
 
-RangeLayouts2 == {L2one, L2mixed, L2gap, L2tx, L2sym}
+Hand2 == {L2mixed, L2one, L2sym, L2gap, L2tx}
 PlanC01Thorough ==
-  [sample |-> E("sample", All1 \cup All2s \cup {L4mixed, L4span},             1, {}, TRUE),
-   row2   |-> E("row",    All1 \cup All2s,                                    2, {}, TRUE),
-   row4   |-> E("row",    {L4mixed, L4span},                                  2, {"side", "swap", "cell2", "cellT"}, TRUE),
-   rnd2   |-> E("rnd",    All2s \cup {L2tx},                                  1, {}, TRUE),
-   rnd4   |-> E("rnd",    {L4mixed, L4span, L4gaps},                          1, {}, TRUE),
-   range2 |-> E("range",  RangeLayouts2 \cup All1,                            2, RangeT, TRUE),
-   range4 |-> E("range",  {L4one},                                            2, {"slice", "slice0"}, FALSE),
-   range5 |-> E("range",  {L4span, L4mixed},                                  1, {}, FALSE)]
+  [sample2 |-> E("sample", All1 \cup Hand2,                                   1, {}, TRUE),
+   sample4 |-> E("sample", {L4mixed},                                         1, {}, TRUE),
+   sample5 |-> E("sample", {L4span},                                          1, {}, FALSE),
+   row2    |-> E("row",    All1 \cup All2s,                                   2, {}, TRUE),
+   row4    |-> E("row",    {L4mixed, L4span},                                 2, {"side", "swap", "cell2", "cellT"}, TRUE),
+   rnd2    |-> E("rnd",    All2s \cup {L2tx},                                 1, {}, TRUE),
+   rnd4    |-> E("rnd",    {L4mixed},                                         1, {}, TRUE),
+   rnd5    |-> E("rnd",    {L4span, L4gaps},                                  1, {}, FALSE),
+   range2  |-> E("range",  Hand2 \cup All1,                                   2, RangeT, TRUE),
+   range4  |-> E("range",  {L4one},                                           2, {"slice"}, FALSE),
+   range5  |-> E("range",  {L4span, L4mixed},                                 1, {}, FALSE)]
 
 (* the verifier as it was before "fix: range verification must check per-row share counts" *)
 PlanRangeRegress ==
@@ -70,6 +73,7 @@ PlanC02Thorough ==
   [nd2    |-> E("nd",     All1 \cup All2,                                     1, {}, TRUE),
    nd2b   |-> E("nd",     {L2mixed, L2gap, L2one, L2tx},                      2, NdT, TRUE),
    nd4    |-> E("nd",     {L4mixed, L4span, L4gaps, L4one},                   2, {"rm", "move"}, TRUE),
-   rnd2   |-> E("rnd",    All2,                                               1, {}, TRUE),
-   rnd4   |-> E("rnd",    {L4mixed, L4span, L4gaps},                          1, {}, TRUE)]
+   rnd2   |-> E("rnd",    All2s \cup {L2tx},                                  1, {}, TRUE),
+   rnd4   |-> E("rnd",    {L4gaps},                                           1, {}, TRUE),
+   rnd5   |-> E("rnd",    {L4mixed, L4span},                                  1, {}, FALSE)]
 =============================================================================
